@@ -4,25 +4,43 @@
    Only statements here; proofs are `exact <lemma>` from proof/PoolProofB*.v.  The safety half (the task
    ledger: never twice, never both, rejected never runs) is props/C10_pool.v.
 
-   STATUS of this file (it is extended as the invariant proofs in PoolProofB2.v ... close):
-     proved  : workers_can_vanish_refuted (pinned code, i_fixa = false), the non-vacuity Example.
-     pending : (full statements, for every P with pvalid P and i_fixa P = true)
+   STATUS (honest account; extended as the invariant layers in proof/PoolProofB*.v close)
 
-       workers_without_timer_ge_initgo :
-         in every reachable configuration whose state is running (or locked by a Submit that found it
-         running): initGo <= (number of workers that have not executed their decrement of totalGo and
-         are not members of timeoutGroup) + (workers counted in totalGo whose `go` has not run yet),
-         and, whenever no goroutine is inside the idle-timer exit's critical section,
+   PROVED here
+     workers_can_vanish_refuted            the pinned code (i_fixa = false) strands accepted tasks: witness
+     workers_stay_and_all_tasks_run        Example: on the code as it is the same prefix ends with all done
+     parked_worker_has_nothing_to_receive  a worker parked in its select => queue open, context not
+                                           cancelled, queue EMPTY  (every parameter record, every variant)
+     interrupt_branch_only_after_cancel    a worker on the `<-b.interruptCtx.Done()` branch => the context
+                                           is cancelled
+   The last two are steps towards the theorems below, NOT those theorems.
+
+   NOT PROVED YET (full statements; P with pvalid P and i_fixa P = true)
+
+     workers_without_timer_ge_initgo :
+       in every reachable configuration whose pool is live (Start has executed `b.totalGo += n`, state not
+       stopped) and whose queue is not closed-and-empty:
+         initGo <= (counted workers that are not effective members of timeoutGroup) + (creations in progress)
+       and, whenever no goroutine is inside the idle-timer exit's critical section,
          i_init P <= s_total (c_sh c) - s_gn (c_sh c)
+       missing: this is invariant (K) itself; its proof needs the goroutine-id layer (distinct ids, map
+       entries are live ids) and the timeout-group layer (g.n counts the effective members; an armed/fired
+       idle timer belongs to a member) - both written, the second machine-checked relative to the first.
 
-       stuck_running_implies_queue_empty :
-         exec pstep_cfg (pinit P) evs = Some c -> stuck c -> s_state (c_sh c) = SRunning -> s_q (c_sh c) = []
+     stuck_running_implies_queue_empty :
+       exec pstep_cfg (pinit P) evs = Some c -> stuck c -> s_state (c_sh c) = SRunning -> s_q (c_sh c) = []
+       missing: K and the analysis of stuck configurations (see props/C12_pool.v); then: a non-empty queue
+       has no parked worker (parked_worker_has_nothing_to_receive), so a stuck configuration with a
+       non-empty queue has no thread at all, contradicting K.
 
-       at_quiescence_none_lost :   (additionally i_fixb P = true)
-         exec pstep_cfg (pinit P) evs = Some c -> g_began (c_gh c) = true ->
-         g_shut (c_gh c) = true \/ g_now (c_gh c) = true -> stuck c ->
-         forall i, In i (g_acc (c_gh c)) -> In i (g_done (c_gh c)) \/ In i (g_returned (c_gh c)) *)
-From Ekit Require Import Common Conc PoolModel PoolExamples PoolProofB.
+     at_quiescence_none_lost :   (additionally i_fixb P = true)
+       exec pstep_cfg (pinit P) evs = Some c -> g_began (c_gh c) = true ->
+       g_shut (c_gh c) = true \/ g_now (c_gh c) = true -> stuck c ->
+       forall i, In i (g_acc (c_gh c)) -> In i (g_done (c_gh c)) \/ In i (g_returned (c_gh c))
+       missing: shutdown_completes (C12) for the graceful case; for ShutdownNow the stuck analysis plus
+       "after ShutdownNow returned the queue is empty" (proved in the life-cycle layer); the ledger itself
+       is agent-pool's PoolProof6.accepted_in_ledger_lemma. *)
+From Ekit Require Import Common Conc PoolModel PoolExamples PoolProofB PoolProofB0 PoolProofB2d PoolProofB2bd PoolProofBz.
 
 (* On the code BEFORE the fix: commit dc56be3 (i_fixa = false): a schedule after which the pool is in
    state RUNNING (Start returned nil), no goroutine is left (totalGo = 0), nothing can run any more, and
@@ -51,3 +69,17 @@ Example workers_stay_and_all_tasks_run :
     g_acc (c_gh c) = [0; 1; 2; 3; 4; 5]%nat /\
     (forall i, In i (g_acc (c_gh c)) -> In i (g_done (c_gh c))).
 Proof. exact workers_stay_example_lemma. Qed.
+
+(* ---------- steps towards the positive theorems (every parameter record, every variant) ---------- *)
+
+Theorem parked_worker_has_nothing_to_receive : forall P evs c t x, exec pstep_cfg (pinit P) evs = Some c ->
+  lookup t (c_thr c) = Some x -> pc x = WParked ->
+  s_closed (c_sh c) = false /\ s_ictx (c_sh c) = false /\ s_q (c_sh c) = [].
+Proof. exact parked_worker_idle_lemma. Qed.
+Print Assumptions parked_worker_has_nothing_to_receive.
+
+(* g_int: the six statements of the worker's `case <-b.interruptCtx.Done():` branch *)
+Theorem interrupt_branch_only_after_cancel : forall P evs c t x, exec pstep_cfg (pinit P) evs = Some c ->
+  lookup t (c_thr c) = Some x -> g_int (pc x) = 1 -> s_ictx (c_sh c) = true.
+Proof. exact interrupt_branch_after_cancel_lemma. Qed.
+Print Assumptions interrupt_branch_only_after_cancel.
